@@ -113,6 +113,11 @@ def obligations(tier):
     obls.append(CH("observable_instances_rechecked", H, "observable_instances", t, mode="E1s", functions=["stix2.properties.ObservableProperty.clean", "stix2.base._Observable._check_ref"],
                    bounds="2.0 observed-data built from observable INSTANCES taken out of another container (7 selections: valid reuse, missing keys, keys now naming another type) x constructor / new_version / dictionary form; "
                           "accepted output is checked by an independent reference resolver"))
+    for q in range(4):
+        obls.append(CH("list_slots_as_iterables_p%d" % q, H, "list_slots_as_iterables", t, mode="E1s", functions=["stix2.properties.ListProperty.clean", "stix2.base._STIXBase.__init__"], stubs=[MODEL],
+                       env={"VERIF_PART": str(q)}, bounds="every list-valued slot that the generator fills, of every class (index %% 4 == %d) x 7 iterable kinds (iterator, generator, map, filter, tuple, list, keys view) x empty / filled, through the constructor" % q))
+    obls.append(CH("strict_bundle_members_validated", H, "strict_bundle_members", t, mode="E1s", functions=["stix2.properties.STIXObjectProperty.clean", "stix2.parsing.dict_to_stix2"],
+                   bounds="a member of an unregistered type with an extension entry naming new-sdo / new-sco / new-sro / none x clean or one of 10 corruptions x dictionary / JSON text / constructor x 2.1 / 2.0 bundle"))
     obls.append(CH("object_references_in_local_scope", H, "local_scope", t, mode="E1s", functions=["stix2.base._Observable._check_property", "stix2.base._Observable._check_ref"],
                    bounds="7 reference sites of 2.0 observables (3 on the member itself, 4 inside extensions / embedded objects) x 6 targets (each kind of member present, a key that is absent): accepted containers resolve every reference to an allowed type"))
     for p in range(8):
